@@ -195,6 +195,57 @@ def round_trip(rec, label, xml_text, scratch, formats=("xml", "mediawiki", "tsv"
         if not (reloaded[a] == reloaded[b]):
             rec.violation(f"C05:{kind}:formats-disagree:{a}-vs-{b}", **where)
             break
+    # second generation: a schema that was itself loaded from an unmerged save is saved and reloaded again
+    if S.with_standard:
+        second = [(f, m) for f in formats for m in (True, False)] if not edited else [("mediawiki", True), ("xml", True)]
+        for tag1 in [t for t in tags if t.endswith("unmerged")]:
+            R1 = reloaded[tag1]
+            for fmt, merged in second:
+                rec.n("evaluations")
+                rec.n("transitions")
+                rec.n("distinct_nontrivial")
+                tag2 = f"{tag1}->{fmt}:{'merged' if merged else 'unmerged'}"
+                try:
+                    if fmt == "xml":
+                        R2 = from_string(R1.get_as_xml_string(save_merged=merged), ".xml")
+                    elif fmt == "mediawiki":
+                        R2 = from_string(R1.get_as_mediawiki_string(save_merged=merged), ".mediawiki")
+                    else:
+                        d = os.path.join(scratch, "tsv2")
+                        shutil.rmtree(d, ignore_errors=True)
+                        R1.save_as_dataframes(d, save_merged=merged)
+                        R2 = load_schema(d)
+                except Exception as e:
+                    rec.violation(f"C05:{kind}:second-generation:{fmt}:{'merged' if merged else 'unmerged'}:raises:{type(e).__name__}",
+                                  path=tag2, error=repr(e)[:300], **where)
+                    continue
+                diff = dump_diff(dS, dump(R2)) or dump_diff(dump(R2), dS)
+                if (not (R2 == S) or diff) and nowiki and fmt == "mediawiki":
+                    rec.violation("C05:description-with-literal-nowiki-markup:mediawiki-round-trip-loses-it",
+                                  detail=diff or "", **where)
+                elif not (R2 == S) or diff:
+                    rec.violation(f"C05:{kind}:second-generation:{fmt}:{'merged' if merged else 'unmerged'}:reloaded-differs",
+                                  path=tag2, detail=diff or "eq-only", **where)
+        # a TSV save into a directory that already holds an earlier save of the same schema in the other mode
+        if "tsv" in formats:
+            for first_merged in (True, False):
+                rec.n("evaluations")
+                rec.n("transitions", 2)
+                rec.n("distinct_nontrivial")
+                d = os.path.join(scratch, "tsv3")
+                shutil.rmtree(d, ignore_errors=True)
+                try:
+                    S.save_as_dataframes(d, save_merged=first_merged)
+                    S.save_as_dataframes(d, save_merged=not first_merged)
+                    R3 = load_schema(d)
+                except Exception as e:
+                    rec.violation(f"C05:{kind}:tsv-resave:raises:{type(e).__name__}", first_merged=first_merged,
+                                  error=repr(e)[:300], **where)
+                    continue
+                diff = dump_diff(dS, dump(R3)) or dump_diff(dump(R3), dS)
+                if not (R3 == S) or diff:
+                    rec.violation(f"C05:{kind}:tsv-resave-into-same-directory:reloaded-differs", first_merged=first_merged,
+                                  detail=diff or "eq-only", **where)
     return S
 
 
